@@ -29,7 +29,7 @@ def builder(seed, n, defaults, tag):
         span = rng.uniform(0.5, 2.0)
         rt = 10 ** rng.uniform(-7, -4)
         base = dict(prob=prob, x0=0.0, xend=span, rtol=rt, atol=rt * 1e-2, defaults=defaults)
-        kind = ["massdefault", "massident", "jacband", "massdiag", "dae", "jacsrc"][g % 6]
+        kind = ["massdefault", "massident", "jacband", "massdiag", "dae", "jacsrc", "massband"][g % 7]
         variants = []
         if kind == "massdefault":
             for ms in ("identity", "full", "banded:0:0", "banded:1:1"):
@@ -52,6 +52,21 @@ def builder(seed, n, defaults, tag):
             variants.append(("mass", dict(base, method="RADAU", use_jac=True, mass=M, mass_storage="full")))
             variants.append(("massbanded", dict(base, method="RADAU", use_jac=True, mass=M, mass_storage="banded:0:0")))
             variants.append(("explicit", dict(base, prob=p2, method="RADAU", use_jac=True)))
+        elif kind == "massband":
+            # nonsingular banded (asymmetric band) mass matrix: Full vs Banded storage of the same entries
+            ml, mu = rng.choice([(1, 0), (0, 1), (2, 0), (1, 2), (0, 2)])
+            ml, mu = min(ml, max(0, nn - 1)), min(mu, max(0, nn - 1))
+            M = [[0.0] * nn for _ in range(nn)]
+            for i in range(nn):
+                for j in range(nn):
+                    if i == j:
+                        M[i][j] = rng.choice([1.0, 2.0, 0.5])
+                    elif -mu <= i - j <= ml:
+                        M[i][j] = rng.choice([0.25, -0.5, 0.125])
+            variants.append(("full", dict(base, method="RADAU", use_jac=True, mass=M, mass_storage="full")))
+            variants.append(("banded", dict(base, method="RADAU", use_jac=True, mass=M, mass_storage="banded:%d:%d" % (ml, mu))))
+            variants.append(("bandedwide", dict(base, method="RADAU", use_jac=True, mass=M,
+                                               mass_storage="banded:%d:%d" % (min(ml + 1, max(0, nn - 1)), mu))))
         elif kind == "dae":
             # index-1 DAE:  y0' = -y0 + y1 ,  0 = y1 - c*y0   (M = diag(1,0)), consistent start
             c = rng.choice([0.5, -0.5, 2.0])
@@ -97,6 +112,10 @@ def group_oracle(metas, parsed):
                 if not same(ref, parsed[c]):
                     out.append((c, "mass-storage:" + kind, "mass storage '%s' gives a different trajectory than '%s' for the same (identity) mass matrix" %
                                 (metas[c][0]["variant"], metas[cids[0]][0]["variant"])))
+        elif kind == "massband":
+            for c in cids[1:]:
+                if not same(parsed[cids[0]], parsed[c]):
+                    out.append((c, "mass-storage:banded", "mass storage '%s' gives a different trajectory than Full for the same banded mass matrix" % metas[c][0]["variant"]))
         elif kind == "jacband":
             for m in ("RADAU", "BDF"):
                 mine = [c for c in cids if metas[c][0]["variant"].startswith(m)]
